@@ -135,9 +135,14 @@ def to_harness(c):
     return "\n".join(lines)
 
 
+def oracle_only(op):
+    """calls whose observations (kinds 5000-5999) are decided by the Python oracle alone: not part of the model term"""
+    return op[0] == "q" and str(op[1]).startswith("alg_")
+
+
 def to_coq(c):
     return "mkcase %s %s [%s]" % (coq_spec(c["spec"]), "true" if c["snap_each"] else "false",
-                                  "; ".join(coq_op(o) for o in c["ops"]))
+                                  "; ".join(coq_op(o) for o in c["ops"] if not oracle_only(o)))
 
 
 # ---------------------------------------------------------------- generators
@@ -284,6 +289,9 @@ def gen_cases(kind, seed, n):
         elif kind == "c03":
             wmode = "nan" if r.below(4) == 0 else "real"
             ops = gen_mutations(r, names, 2 + r.below(9), wmode=wmode, collide=60)
+            # the consequence clause: what the algorithms report for the graph this history produced
+            wf = 1 if wmode == "real" else 0
+            ops = ops + [("q", "alg_sssp", [x, wf]) for x in names] + [("q", "alg_cc", [wf]), ("q", "alg_bc", [wf])]
             cases.append(scaled({"id": "h%d" % i, "spec": sp, "snap_each": True, "ops": ops, "wmode": wmode}, wmode))
         elif kind == "c09":
             wmode = r.pick(["nan", "real", "real"])
